@@ -2,12 +2,20 @@
 
 Execution-graph correspondence (real ExecutionGraph driven by the scripted
 scheduler vs Model/Exec.lean, state compared after every operation) and the
-C02 monitor of harness/execsim.py evaluated on the real traces."""
+C02 monitor of harness/execsim.py evaluated on the real traces - with the scripted
+adapter, and with the real Slurm / LSF `check_jobs` reading the scheduler's
+answers (queue rows, accounting rows with their job-step rows) in between."""
 import execprop
+from corr import compare, judge, account
 
 LEVEL = "proof"
-RULE = execprop.RULE
+RULE = execprop.RULE + "; plus the same with the real Slurm / LSF check_jobs in the loop (harness/viasched.py)"
 
 
 def run(ctx, escalated=False):
-    execprop.run(ctx, "C02", escalated)
+    quick = ctx.tier == "quick" and not escalated
+    cases = execprop.run(ctx, "C02", escalated, finish=False)
+    cases += execprop.via_cases(ctx, "C02", 400 if quick else 8000, faulty=False)
+    diffs = compare(cases)
+    account(ctx, cases)
+    judge(ctx, cases, diffs, "execution-graph+adapters", shrink=execprop.shrink_factory(ctx, "C02"))
